@@ -102,6 +102,28 @@ func shapeOf(d *model.Doc) (sig string, spreads, inlines int) {
 	return string(b), spreads, inlines
 }
 
+// c19DefDigest names a type definition by what it says: kind, name, the names and types of its fields, its interfaces,
+// members and enum values (not by where it lives).
+func c19DefDigest(d *ast.Definition) string {
+	if d == nil {
+		return "<nil>"
+	}
+	var b strings.Builder
+	fmt.Fprintf(&b, "%s %s", d.Kind, d.Name)
+	for _, f := range d.Fields {
+		t := "<nil>"
+		if f.Type != nil {
+			t = f.Type.String()
+		}
+		fmt.Fprintf(&b, " %s:%s/%d", f.Name, t, len(f.Arguments))
+	}
+	fmt.Fprintf(&b, " impl=%v members=%v", d.Interfaces, d.Types)
+	for _, ev := range d.EnumValues {
+		b.WriteString(" " + ev.Name)
+	}
+	return b.String()
+}
+
 func c19Check(x *core.Ctx, c *core.Case) {
 	src := c.Get("doc")
 	doc, err := parser.ParseQuery(&ast.Source{Name: "c19.graphql", Input: src})
@@ -115,6 +137,13 @@ func c19Check(x *core.Ctx, c *core.Case) {
 		if lerr != nil {
 			x.Count("skipped:schema-does-not-load")
 			return
+		}
+		if core.HashString(src)%2 == 0 {
+			// the tree is encoded once BEFORE validation too (a gateway logs the request, then validates it, then ships the
+			// validated tree): the second encoding is of the tree as it is then
+			if _, e0 := json.Marshal(doc); e0 == nil {
+				x.Count("documents_encoded_before_and_after_validation")
+			}
 		}
 		if errs := validator.Validate(schema, doc); len(errs) > 0 {
 			x.Count("skipped:document-rejected")
@@ -156,6 +185,10 @@ func c19Check(x *core.Ctx, c *core.Case) {
 						return ""
 					}
 					switch {
+					case (s.ObjectDefinition == nil) != (d.ObjectDefinition == nil):
+						return fmt.Sprintf("field %s (alias %q): parent definition present before encoding: %v, after decoding: %v", s.Name, s.Alias, s.ObjectDefinition != nil, d.ObjectDefinition != nil)
+					case s.ObjectDefinition != nil && c19DefDigest(s.ObjectDefinition) != c19DefDigest(d.ObjectDefinition):
+						return fmt.Sprintf("field %s (alias %q) decoded with the parent definition %s, before encoding %s", s.Name, s.Alias, c19DefDigest(d.ObjectDefinition), c19DefDigest(s.ObjectDefinition))
 					case (s.Definition == nil) != (d.Definition == nil):
 						return fmt.Sprintf("field %s (alias %q): definition present before encoding: %v, after decoding: %v", s.Name, s.Alias, s.Definition != nil, d.Definition != nil)
 					case s.Definition != nil && (d.Definition.Name != s.Definition.Name || d.Definition.Type.String() != s.Definition.Type.String()):
@@ -166,8 +199,21 @@ func c19Check(x *core.Ctx, c *core.Case) {
 					}
 				case *ast.InlineFragment:
 					if d, ok := b[i].(*ast.InlineFragment); ok {
+						if (s.ObjectDefinition == nil) != (d.ObjectDefinition == nil) || (s.ObjectDefinition != nil && c19DefDigest(s.ObjectDefinition) != c19DefDigest(d.ObjectDefinition)) {
+							return fmt.Sprintf("inline fragment on %q decoded with another parent definition", s.TypeCondition)
+						}
 						if w := check(s.SelectionSet, d.SelectionSet); w != "" {
 							return w
+						}
+					}
+				case *ast.FragmentSpread:
+					if d, ok := b[i].(*ast.FragmentSpread); ok {
+						switch {
+						case (s.Definition == nil) != (d.Definition == nil):
+							return fmt.Sprintf("spread ...%s: fragment definition present before encoding: %v, after decoding: %v", s.Name, s.Definition != nil, d.Definition != nil)
+						case s.Definition != nil && (s.Definition.Name != d.Definition.Name || s.Definition.TypeCondition != d.Definition.TypeCondition || len(s.Definition.SelectionSet) != len(d.Definition.SelectionSet) ||
+							(s.Definition.Definition == nil) != (d.Definition.Definition == nil)):
+							return fmt.Sprintf("spread ...%s decoded with a different fragment definition (%s on %s, %d selections, linked: %v)", s.Name, d.Definition.Name, d.Definition.TypeCondition, len(d.Definition.SelectionSet), d.Definition.Definition != nil)
 						}
 					}
 				}
